@@ -770,6 +770,32 @@ pub fn gen_c03(rng: &mut Rng, thorough: bool) -> Vec<Tagged> {
             out.push((format!("{}-extreme-hyperparameters", opt.kind()), Case::OptHistory { opt, vals: vec![vec![vec![w]]], steps }));
         }
     }
+    // large step numbers (beyond 2^8, 2^10, 2^16, 20 000, 10^6, i32::MAX) with momentum / beta parameters close
+    // to one: beta^step is far from zero, the bias corrections are far from one
+    {
+        let stepnrs: [i32; 14] = [1, 2, 255, 256, 257, 1024, 1025, 19_999, 20_000, 20_001, 65_537, 1_000_000, 16_777_217, i32::MAX];
+        let mut hp: Vec<Opt> = vec![
+            Opt::Adam { lr: 0.01, b1: 0.9, b2: 0.9999, eps: 1e-8, decay: None },
+            Opt::Adam { lr: 0.01, b1: 0.9999, b2: 0.999_999, eps: 1e-8, decay: Some(0.01) },
+            Opt::Adam { lr: 0.01, b1: 0.999_99, b2: 0.999_999_9, eps: 1e-8, decay: None },
+            Opt::AdamW { lr: 0.01, b1: 0.9, b2: 0.9999, eps: 1e-8, decay: 0.01 },
+            Opt::AdamW { lr: 0.01, b1: 0.9999, b2: 0.999_999, eps: 1e-8, decay: 0.0 },
+            Opt::SGDM { lr: 0.1, momentum: 0.9999, dampening: 0.5, decay: None },
+            Opt::RMS { lr: 0.01, alpha: 0.9999, eps: 1e-8, decay: None, momentum: Some(0.9999), centered: true },
+        ];
+        if thorough {
+            hp.push(Opt::Adam { lr: 0.01, b1: 0.9, b2: 0.999, eps: 1e-8, decay: None });
+            hp.push(Opt::RMS { lr: 0.01, alpha: 0.999_999, eps: 1e-8, decay: None, momentum: None, centered: false });
+        }
+        for (k, opt) in hp.into_iter().enumerate() {
+            let shape = [Shape::Single(3), Shape::Double(1, 3), Shape::Triple(1, 1, 3)][k % 3].clone();
+            let w = tensor_of_shape(&shape, &[0.5, -0.25, 1.5]);
+            let steps: Vec<(usize, usize, bool, i32, Tensor)> = stepnrs.iter().enumerate().map(|(s, nr)| {
+                (0usize, 0usize, false, *nr, tensor_of_shape(&shape, &[0.5 - 0.1 * s as f32, -0.75 + 0.05 * s as f32, if s % 2 == 0 { 1e-3 } else { -2e-3 }]))
+            }).collect();
+            out.push((format!("{}-large-step-numbers", opt.kind()), Case::OptHistory { opt, vals: vec![vec![vec![w]]], steps }));
+        }
+    }
     // wrong slot / rank mismatch is refused
     let opt = rand_opt(rng, 2);
     out.push(("adam-bad-slot".into(), Case::OptHistory { opt: opt.clone(), vals: vec![vec![vec![t1(vec![1.0, 2.0])]]], steps: vec![(0, 0, true, 1, t1(vec![0.5, 0.5]))] }));
